@@ -8,6 +8,56 @@ VERIF = os.path.dirname(os.path.dirname(os.path.abspath(__file__)))
 
 # property -> (category, technique, level text, level note, design ref)
 CHECKS = {
+    "C01": ("exploration",
+            "Hypothesis generated pairs/triples + exhaustive small grid against the textbook dominance relation",
+            "Generated search over pairs and triples of signed-cost vectors (ties, mixed better/worse coordinates, "
+            "magnitudes 1e-100..1e100, all marker combinations) compared with an independently written textbook "
+            "relation: verdict, irreflexivity, antisymmetry, transitivity, epsilon-vs-Pareto agreement on separated "
+            "pairs and a named loser for identical vectors; all pairs/triples over {0,1,2}^m x 3 markers (m<=3) are "
+            "enumerated completely.",
+            "Oracle = all/any formulation of constrained dominance; negative markers and near-equal floats under the "
+            "epsilon comparator are outside the generated domain.",
+            "DESIGN.md section 5, C01"),
+    "C02": ("exploration",
+            "Hypothesis generated populations (grids, chains, antichains, layers, duplicates) vs longest-dominator-chain rank oracle, in two input orders",
+            "Every individual's front number is compared with the recursive definition of Pareto rank on generated "
+            "populations of up to 60 members in two drawn input orders; consequences (front 1 = non-dominated set, "
+            "nobody unranked, no domination inside a front) are named in the failure bucket.",
+            "Trusts the harness dominance oracle (shared with C01, itself checked against ParetoDominance); the same "
+            "object never appears twice in one list.",
+            "DESIGN.md section 5, C02"),
+    "C04": ("exploration",
+            "model-based histories: Hypothesis generated add/re-offer sequences vs the set model, order permutation, truncate",
+            "Generated add histories (up to 60 steps; repeats, chains, antichains with dominators, infeasible members; "
+            "Pareto and epsilon comparators) are applied to the archive and to a set model; after every step the "
+            "archive must equal the non-dominated subset of everything offered, add() must report membership, and the "
+            "final content must be independent of a drawn permutation; truncate keeps the top feature values.",
+            "Epsilon archives only see separated values; markers non-negative; truncate sizes >= 1.",
+            "DESIGN.md section 5, C04"),
+    "C14": ("exploration",
+            "model-based histories of evaluated batches + NSGA-II/EpsMOEA runs with call-logging objective",
+            "Generated histories of 1..4 batches through Algorithm.evaluate with the worst-case / gradient evaluator: "
+            "after every batch all designs evaluated so far must keep m+1 costs, untouched children at x +/- tol e_i, "
+            "sum|f(x)-f(child)| as extra objective, exact objective-call counts; gradient = forward difference with "
+            "n extra calls; plus short NSGA-II / EpsMOEA runs with these evaluators.",
+            "Polynomial objective family; for m>1 only the structure of the extra objective is asserted.",
+            "DESIGN.md section 5, C14"),
+    "C16": ("exploration",
+            "Hypothesis generated box points vs the family identities with independently coded distance functions",
+            "Generated points of the box (position variables not tied to 0.5, boundary values, the Pareto slice) for "
+            "DTLZ1 (m 2..6, k 1..8), DTLZ2-4 (m 2..6, dimension m+9), ZDT1 and the bi-objective problem are checked "
+            "against sum f=(1+g)/2, ||f||=1+g, f2=g(1-sqrt(f1/g)), f1 f2=1+x2 and non-negativity (rel. tol 1e-9).",
+            "g functions re-implemented from the cited papers; tolerance 1e-9 relative.",
+            "DESIGN.md section 5, C16"),
+    "C17": ("exploration",
+            "Hypothesis generated records and point sets vs direct recomputation (multiset pairing oracle, nested-loop indicators)",
+            "Generated recorded-individual sets (unsorted / gapped tags, duplicates, min/max criteria) are queried "
+            "through every Results method and compared with a direct computation over the recorded list (identity for "
+            "population/optimum queries, multiset of (parameter, cost) pairs for listings, order for sorted output); "
+            "gd and epsilon_add are compared with nested-loop references, including zero-iff-subset and shift-by-d "
+            "(exact on dyadic inputs).",
+            "Tags >= 0 (-1 means 'last'); costs()/find_optimum() only on non-empty records; finite values.",
+            "DESIGN.md section 5, C17"),
     "C20": ("exploration",
             "Hypothesis generated pairs/pools + scripted call-site histories against the coordinate-wise oracle",
             "Generated search over vector pairs (subset-of-coordinates perturbations on both sides of the 1e-10 "
